@@ -205,6 +205,7 @@ func (s *Sched) Step() bool {
 		p := s.parked[pick]
 		delete(s.parked, pick)
 		s.FrozenSteps++
+		s.r.Tracef("frozen step %d: release %s@%s (enabled %v)", s.FrozenSteps, pick, p.Point, en)
 		if s.OnRelease != nil {
 			s.OnRelease(p)
 		}
@@ -267,6 +268,27 @@ func (s *Sched) RunToQuiescence(maxSteps int) int {
 	}
 	s.Settle()
 	return n
+}
+
+// Drain is the teardown: in frozen mode it keeps releasing enabled goroutines until nothing is enabled, then marks the
+// scheduler killed. Goroutines that are still parked (never enabled) stay parked.
+func (s *Sched) Drain() {
+	if s.Free {
+		s.mu.Lock()
+		s.killed = true
+		s.mu.Unlock()
+		return
+	}
+	s.Frozen = true
+	for i := 0; i < 100000; i++ {
+		if !s.Step() {
+			break
+		}
+	}
+	synctest.Wait()
+	s.mu.Lock()
+	s.killed = true
+	s.mu.Unlock()
 }
 
 // Shutdown releases everything parked and makes all future Park calls no-ops.
